@@ -5,7 +5,7 @@ import random
 import e2e
 from core import Family, q, unq, close, run_impl, cmp_tree
 
-GEN_FILES = ["ChoiceSegments.v"]
+GEN_FILES = ["ChoiceSegments.v", "IndexersGen.v"]
 TRUSTED = e2e.TRUSTED + ["Model/StateSpace.v as the model of create_data_scs' agent x restricted-choice product and create_choice_segments (tied in C17)"]
 ASSUMPTIONS = e2e.ASSUMPTIONS + ["every agent's restricted state keeps a filter-passing choice (otherwise lcm fails for the whole batch: C12 known finding)",
                                  "path invariance is claimed for models without stochastic transitions; for all models only period 0"]
